@@ -2,7 +2,7 @@
    (MapRefModel with ascending-key placement) for all iterator-free histories and every level oracle.
    Part 1: frame lemmas for the two heaps (nodes, forward arrays). *)
 From Coq Require Import List NArith ZArith Bool Arith Lia Sorted.
-Require Import Verif.MapSpec Verif.MapHashModel Verif.MapSkipModel Verif.MapRefModel Verif.MapRefProofs Verif.MapHashProofs2.
+Require Import Verif.MapSpec Verif.MapHashModel Verif.MapSkipModel Verif.MapRefModel Verif.MapRefProofs Verif.MapHashProofs2 Verif.MapHashProofs3.
 Import ListNotations.
 
 (* ---------- nodes ---------- *)
@@ -153,13 +153,17 @@ Proof.
   - destruct H0. split. rewrite H; auto. apply IHrest; auto. intros. apply H. destruct H2; auto.
 Qed.
 
+(* every node of U owns a live forward array of full width, and no two of them share one *)
+Record Own (s : kstate) (U : list nat) : Prop := {
+  own_arr : forall id n, In id U -> dnode s id = Ok n -> exists a, darr s (sn_fwd n) = Ok a /\ length a = S LEVEL_MAX;
+  own_inj : forall x y n m, In x U -> In y U -> dnode s x = Ok n -> dnode s y = Ok m -> sn_fwd n = sn_fwd m -> x = y
+}.
+
 Record SGood (s : kstate) (C0 : list nat) : Prop := {
   sg_hdr : exists h, dnode s HEADER = Ok h /\ sn_key h = None /\ sn_ref h = 1;
   sg_node : forall id, In id C0 -> exists n k, dnode s id = Ok n /\ sn_key n = Some k /\ sn_ref n = 1 /\
                                        (0 <= sn_level n <= k_level s)%Z /\ id <> HEADER;
-  sg_arr : forall id n, (id = HEADER \/ In id C0) -> dnode s id = Ok n -> exists a, darr s (sn_fwd n) = Ok a /\ length a = S LEVEL_MAX;
-  sg_own : forall x y n m, (x = HEADER \/ In x C0) -> (y = HEADER \/ In y C0) -> dnode s x = Ok n -> dnode s y = Ok m ->
-                           sn_fwd n = sn_fwd m -> x = y;
+  sg_own : Own s (HEADER :: C0);
   sg_sorted : StronglySorted (klt s) C0;
   sg_linked : forall l, l <= LEVEL_MAX -> Linked s l HEADER (chain s C0 l);
   sg_level : (-1 <= k_level s <= 8)%Z;
@@ -261,7 +265,8 @@ Qed.
 Lemma search_ok : forall m fuel s C0 stop k cur T l u,
   SGood s C0 -> l <= LEVEL_MAX -> Pos s C0 k l cur T -> length T + l <= m -> m + 2 <= fuel ->
   exists R, search fuel s stop k cur (Z.of_nat l) u = Ok R /\
-    ((stop = true /\ exists y, fst (fst R) = Some y /\ In y T /\ nkey s y = k) \/ SearchRes s C0 k l u R).
+    ((stop = true /\ exists y, fst (fst R) = Some y /\ In y T /\ nkey s y = k) \/
+     (SearchRes s C0 k l u R /\ (stop = true -> forall y, In y C0 -> nkey s y <> k))).
 Proof.
   induction m; intros fuel s C0 stop k cur T l u G Hl P Hm Hf.
   - (* T = [], l = 0 *)
@@ -271,9 +276,11 @@ Proof.
     eexists. split; [reflexivity|]. right.
     destruct (pos_last _ _ _ _ _ _ P) as [pre [E [A L]]].
     assert (LF : LevelFact s C0 k 0 cur). { exists pre, []. repeat split; auto. intros y []. }
-    exists cur, ((0, cur) :: u). split; auto. split; auto. split.
-    + intros l' Hl'. assert (l' = 0) by lia. subst l'. exists cur. rewrite uv_get_cons. simpl. auto.
-    + intros l' Hl'. rewrite uv_get_cons. replace (Nat.eqb 0 l') with false; auto. symmetry. apply Nat.eqb_neq. lia.
+    split.
+    { exists cur, ((0, cur) :: u). split; auto. split; auto. split.
+      + intros l' Hl'. assert (l' = 0) by lia. subst l'. exists cur. rewrite uv_get_cons. simpl. auto.
+      + intros l' Hl'. rewrite uv_get_cons. replace (Nat.eqb 0 l') with false; auto. symmetry. apply Nat.eqb_neq. lia. }
+    { intros _ y Hy. rewrite E, app_nil_r in Hy. apply key_eqb_neq. apply key_ltb_neq. auto. }
   - destruct fuel as [|fuel]; try lia. cbn [search].
     replace (Z.ltb (Z.of_nat l) 0) with false by (symmetry; apply Z.ltb_ge; lia). rewrite Nat2Z.id.
     generalize (pos_linked s C0 k l cur T G Hl P). intro LK. rewrite (linked_head _ _ _ _ LK). cbn [bind].
@@ -282,28 +289,34 @@ Proof.
     { apply ss_filter. eapply ss_app_r. rewrite <- E. apply (sg_sorted _ _ G). }
     (* the continuation "next level" *)
     assert (NEXT : (forall y, In y (chain s T l) -> key_ltb (nkey s y) k = false) ->
+      (stop = true -> forall y, In y (chain s T l) -> nkey s y <> k) ->
       exists R, search fuel s stop k cur (Z.of_nat l - 1) ((l, cur) :: u) = Ok R /\
-        ((stop = true /\ exists y, fst (fst R) = Some y /\ In y T /\ nkey s y = k) \/ SearchRes s C0 k l u R)).
-    { intros GE.
+        ((stop = true /\ exists y, fst (fst R) = Some y /\ In y T /\ nkey s y = k) \/
+         (SearchRes s C0 k l u R /\ (stop = true -> forall y, In y C0 -> nkey s y <> k)))).
+    { intros GE NEQ.
       assert (P0 : Pos s C0 k l cur T) by (exists pre; auto).
       destruct (pos_last _ _ _ _ _ _ P0) as [pre2 [E2 [A2 L2]]].
       assert (LF : LevelFact s C0 k l cur). { exists pre2, T. repeat split; auto. }
       destruct l as [|l1].
       - destruct fuel as [|fuel]; try lia. cbn [search]. simpl Z.ltb. cbv iota.
-        eexists. split; [reflexivity|]. right. exists cur, ((0, cur) :: u). split; auto. split; auto. split.
-        + intros l' Hl'. assert (l' = 0) by lia. subst l'. exists cur. rewrite uv_get_cons. simpl. auto.
-        + intros l' Hl'. rewrite uv_get_cons. replace (Nat.eqb 0 l') with false; auto. symmetry. apply Nat.eqb_neq. lia.
+        eexists. split; [reflexivity|]. right. split.
+        { exists cur, ((0, cur) :: u). split; auto. split; auto. split.
+          + intros l' Hl'. assert (l' = 0) by lia. subst l'. exists cur. rewrite uv_get_cons. simpl. auto.
+          + intros l' Hl'. rewrite uv_get_cons. replace (Nat.eqb 0 l') with false; auto. symmetry. apply Nat.eqb_neq. lia. }
+        { intros ST1 y Hy. rewrite E2 in Hy. apply in_app_or in Hy. destruct Hy as [Hy|Hy].
+          - apply key_eqb_neq. apply key_ltb_neq. auto.
+          - apply NEQ; auto. rewrite chain_level0. auto. }
       - replace (Z.of_nat (S l1) - 1)%Z with (Z.of_nat l1) by lia.
         destruct (IHm fuel s C0 stop k cur T l1 ((S l1, cur) :: u) G) as [R [R1 R2]]; try lia.
         { apply pos_lower. exact P0. }
-        exists R. split; auto. destruct R2 as [R2|[c [u' [R3 [R4 [R5 R6]]]]]]; auto.
-        right. exists c, u'. split; auto. split; auto. split.
+        exists R. split; auto. destruct R2 as [R2|[[c [u' [R3 [R4 [R5 R6]]]]] R7]]; auto.
+        right. split; auto. exists c, u'. split; auto. split; auto. split.
         + intros l' Hl'. destruct (Nat.eq_dec l' (S l1)).
           * subst l'. exists cur. rewrite R6 by lia. rewrite uv_get_cons, Nat.eqb_refl. auto.
           * apply R5. lia.
         + intros l' Hl'. rewrite R6 by lia. rewrite uv_get_cons. replace (Nat.eqb (S l1) l') with false; auto. symmetry. apply Nat.eqb_neq. lia. }
     destruct (chain s T l) as [|y rest] eqn:CH; simpl hd_error; cbn [op_search bind].
-    + apply NEXT. intros y [].
+    + apply NEXT. intros y []. intros _ y [].
     + (* the forward node y *)
       assert (YT : In y T). { assert (In y (chain s T l)) by (rewrite CH; left; auto). unfold chain in H. apply filter_In in H. apply H. }
       assert (YC : In y C0) by (rewrite E; apply in_or_app; auto).
@@ -321,13 +334,101 @@ Proof.
             + subst x. rewrite KY. auto.
           - right. exists (pre ++ t1). split. rewrite <- app_assoc. reflexivity. exact AY. }
         { rewrite YS in Hm. rewrite app_length in Hm. simpl in Hm. lia. }
-        exists R. split; auto. destruct R2 as [[R2 [y' [R3 [R4 R5]]]]|[c [u' [R3 [R4 [R5 R6]]]]]].
+        exists R. split; auto. destruct R2 as [[R2 [y' [R3 [R4 R5]]]]|[[c [u' [R3 [R4 [R5 R6]]]]] R7]].
         { left. split; auto. exists y'. split; auto. split; auto. rewrite YS. apply in_or_app. right. right. auto. }
-        right. exists c, u'. split; auto. split; auto. split; auto.
+        right. split; auto. exists c, u'. split; auto. split; auto. split; auto.
         intros l' Hl'. rewrite R6 by lia. rewrite uv_get_cons. replace (Nat.eqb l l') with false; auto. symmetry. apply Nat.eqb_neq. lia.
       * destruct (key_eqb ky k) eqn:EQ.
         { destruct stop.
           - eexists. split; [reflexivity|]. left. split; auto. exists y. simpl. split; auto. split; auto. rewrite KY. apply key_eqb_eq. auto.
-          - apply NEXT. apply head_ge_all_ge; auto. rewrite KY. auto. }
-        { apply NEXT. apply head_ge_all_ge; auto. rewrite KY. auto. }
+          - apply NEXT. apply head_ge_all_ge; auto. rewrite KY. auto. intro; discriminate. }
+        { apply NEXT. apply head_ge_all_ge; auto. rewrite KY. auto.
+          intros _ z Hz. assert (GT : key_ltb k ky = true) by (apply key_ltb_total; auto; rewrite key_eqb_sym; auto).
+          destruct Hz as [Hz|Hz]. subst z. rewrite KY. apply key_eqb_neq. auto.
+          assert (FA : Forall (klt s y) rest) by (inversion ST; auto).
+          assert (H2 : klt s y z) by (eapply Forall_forall in FA; eauto). unfold klt in H2. rewrite KY in H2.
+          apply key_eqb_neq. rewrite key_eqb_sym. apply key_ltb_neq. eapply key_ltb_trans; eauto. }
+Qed.
+
+(* ---------- one pointer store among nodes that own their arrays ---------- *)
+Definition same_rest (s s' : kstate) : Prop :=
+  k_nodes s' = k_nodes s /\ k_length s' = k_length s /\ k_level s' = k_level s /\ k_iters s' = k_iters s /\
+  k_used s' = k_used s /\ k_alive s' = k_alive s.
+
+Lemma set_fwd_own : forall s U id lvl p, Own s U -> In id U -> (exists n, dnode s id = Ok n) -> lvl <= LEVEL_MAX ->
+  exists s', set_fwd s id lvl p = Ok s' /\ same_rest s s' /\ Own s' U /\
+    (forall x l, In x U -> (exists m, dnode s x = Ok m) -> fwd s' x l = if Nat.eqb x id && Nat.eqb lvl l then Ok p else fwd s x l).
+Proof.
+  intros s U id lvl p O Hin [n N] Hl. destruct (own_arr _ _ O id n Hin N) as [a [A1 A2]].
+  assert (LT : lvl < length a) by (rewrite A2; unfold LEVEL_MAX in *; lia).
+  rewrite (set_fwd_ok s id lvl p n a N A1 LT). eexists. split; [reflexivity|]. split; [repeat split|]. split.
+  - constructor.
+    + intros x m Hx M. rewrite dnode_set_arrs in M. destruct (own_arr _ _ O x m Hx M) as [b [B1 B2]].
+      rewrite darr_set_arrs_upd by (eapply darr_lt; eauto). destruct (Nat.eqb (sn_fwd n) (sn_fwd m)) eqn:E.
+      * simpl. eexists. split; [reflexivity|]. rewrite upd_length. auto.
+      * exists b. auto.
+    + intros x y m1 m2 Hx Hy M1 M2. rewrite dnode_set_arrs in M1, M2. apply (own_inj _ _ O x y m1 m2); auto.
+  - intros x l Hx [m M].
+    rewrite (fwd_set_fwd s id lvl p n a _ x m l N A1 LT (set_fwd_ok s id lvl p n a N A1 LT) M).
+    destruct (Nat.eqb x id) eqn:E.
+    + apply Nat.eqb_eq in E. subst x. rewrite N in M. inversion M; subst. rewrite Nat.eqb_refl. simpl. reflexivity.
+    + simpl. replace (Nat.eqb (sn_fwd m) (sn_fwd n)) with false; auto. symmetry. apply Nat.eqb_neq. intro Q.
+      apply Nat.eqb_neq in E. apply E. eapply (own_inj _ _ O); eauto.
+Qed.
+
+(* ---------- the search from the header ---------- *)
+Lemma ss_klt_nodup : forall s l, StronglySorted (klt s) l -> NoDup l.
+Proof.
+  intros s l SS. induction SS; constructor; auto.
+  intro Q. eapply Forall_forall in H; eauto. unfold klt in H. rewrite key_ltb_irrefl in H. discriminate.
+Qed.
+Lemma sgood_nodup : forall s C0, SGood s C0 -> NoDup C0.
+Proof. intros. eapply ss_klt_nodup. apply (sg_sorted _ _ H). Qed.
+
+Lemma sgood_len : forall s C0, SGood s C0 -> length C0 <= length (k_nodes s).
+Proof.
+  intros. apply nodup_bounded_length. eapply sgood_nodup; eauto.
+  intros x Hx. destruct (sg_node _ _ H x Hx) as [n [k [N _]]]. eapply dnode_lt; eauto.
+Qed.
+
+Lemma ss_key_inj : forall s C0 x y, StronglySorted (klt s) C0 -> In x C0 -> In y C0 -> nkey s x = nkey s y -> x = y.
+Proof.
+  intros s C0 x y SS. induction SS; simpl; intros. contradiction.
+  destruct H0, H1; subst; auto.
+  - eapply Forall_forall in H; eauto. unfold klt in H. rewrite H2, key_ltb_irrefl in H. discriminate.
+  - eapply Forall_forall in H; eauto. unfold klt in H. rewrite <- H2, key_ltb_irrefl in H. discriminate.
+Qed.
+Lemma sgood_key_inj : forall s C0 x y, SGood s C0 -> In x C0 -> In y C0 -> nkey s x = nkey s y -> x = y.
+Proof. intros. eapply ss_key_inj; eauto. apply (sg_sorted _ _ H). Qed.
+
+Definition TopRes (s : kstate) (C0 : list nat) (k : key) (R : option nat * nat * upd_vec) : Prop :=
+  exists c u', R = (None, c, u') /\ LevelFact s C0 k 0 c /\
+    (forall l', (Z.of_nat l' <= k_level s)%Z -> exists x, uv_get u' l' = Some x /\ LevelFact s C0 k l' x) /\
+    (forall l', (k_level s < Z.of_nat l')%Z -> uv_get u' l' = None).
+
+Lemma search_top : forall s C0 stop k, SGood s C0 ->
+  exists R, search (search_fuel s) s stop k HEADER (k_level s) [] = Ok R /\
+    ((stop = true /\ exists y, fst (fst R) = Some y /\ In y C0 /\ nkey s y = k) \/
+     (TopRes s C0 k R /\ (stop = true -> forall y, In y C0 -> nkey s y <> k))).
+Proof.
+  intros s C0 stop k G. generalize (sg_level _ _ G). intro LV.
+  destruct (Z_lt_dec (k_level s) 0) as [NEG|POS].
+  - (* empty list, level -1 *)
+    assert (C0 = []). { destruct C0; auto. destruct (sg_node _ _ G n) as [m [k0 [_ [_ [_ [Q _]]]]]]. left; auto. lia. }
+    subst C0. unfold search_fuel. destruct (12 * (length (k_nodes s) + 2)) eqn:FU; [lia|]. cbn [search]. replace (Z.ltb (k_level s) 0) with true by (symmetry; apply Z.ltb_lt; auto).
+    eexists. split; [reflexivity|]. right. split.
+    + exists HEADER, []. split; auto. split.
+      { exists [], []. split; [reflexivity|]. split; [intros y []|]. split; [reflexivity|intros y []]. }
+      split. intros l' Hl'. lia. intros. reflexivity.
+    + intros _ y [].
+  - set (L := Z.to_nat (k_level s)). assert (EL : k_level s = Z.of_nat L) by (unfold L; lia).
+    destruct (search_ok (length C0 + L) (search_fuel s) s C0 stop k HEADER C0 L [] G) as [R [R1 R2]].
+    { unfold L, LEVEL_MAX. lia. }
+    { exists []. split; [reflexivity|]. split; [intros x []|left; auto]. }
+    { lia. }
+    { unfold search_fuel. generalize (sgood_len _ _ G). unfold L. lia. }
+    rewrite EL. exists R. split; auto. destruct R2 as [R2|[[c [u' [R3 [R4 [R5 R6]]]]] R7]]; auto.
+      right. split; auto. exists c, u'. split; auto. split; auto. split.
+      + intros l' Hl'. apply R5. lia.
+      + intros l' Hl'. rewrite R6 by lia. reflexivity.
 Qed.
